@@ -68,7 +68,8 @@ func xformSet(n int, neg bool, scales []int, signs bool) []xform {
 
 // xforms of a lattice matrix. The lattices are closed under A → −A and A → D·A·D (symmetric
 // alphabets), so only the scalings are new inputs. quick: 2x2, 3x2 and the symmetric 3x3
-// matrices; thorough: every lattice except the two largest.
+// matrices; thorough: also the other 3x3{-1,0,1}, the 4x2 and (2^±40 only) the symmetric 3x3{-2..2}
+// matrices.
 func (l mlattice) xforms(base []int, thorough bool) []xform {
 	ok := false
 	switch l.name {
@@ -76,8 +77,12 @@ func (l mlattice) xforms(base []int, thorough bool) []xform {
 		ok = true
 	case "3x3{-1,0,1}":
 		ok = thorough || lat.IsSymmetric(base, 3)
-	case "4x2{-1,0,1}", "3x3sym{-2..2}", "4x3{-1,0,1}":
+	case "4x2{-1,0,1}":
 		ok = thorough
+	case "3x3sym{-2..2}":
+		if thorough {
+			return xformSet(l.r, false, scalesFor(thorough)[:2], false)
+		}
 	}
 	if !ok {
 		return nil
@@ -164,19 +169,17 @@ type runXFn func(t MCase, xs []xform, forceClass string, rank int64)
 // 2^-64), at least one ±τ:
 //
 //	T2   all 2x2 matrices over {0,±1,±2,±τ}
-//	T3s  symmetric 3x3, diagonal over {-1,0,1}, off-diagonal over {0,±τ,1} (thorough: diagonal
-//	     over {-2..2}, off-diagonal over {0,±τ,±1}), and their negatives
+//	T3s  symmetric 3x3, diagonal over {-1,0,1}, off-diagonal over {0,±τ,1} (thorough, τ = 2^-56:
+//	     diagonal over {-2..2}, off-diagonal over {0,±τ,±1}), and their negatives
 //	T3g  3x3 with diagonal over {-1,0,1}, strict lower triangle over {0,±τ}, strict upper
-//	     triangle all 0 or all 1 (thorough: every {0,1} pattern), and their negatives
+//	     triangle all 0 or all 1 (thorough, τ = 2^-56: every {0,1} pattern), and their negatives
 //
-// T2 is closed under negation and D·A·D; scalings of everything in thorough.
+// T2 is closed under negation and D·A·D and is run with every scaling; T3s and T3g are scaled by
+// 2^±40 in thorough.
 func termTiny(c *vf.Ctx, idx *int64, runT runTFn, runX runXFn) {
 	th := c.Thorough()
 	for _, te := range tinyExps(th) {
-		var sc []xform
-		if th {
-			sc = xformSet(2, false, scalesFor(th), false)
-		}
+		sc := xformSet(2, false, scalesFor(th), false)
 		// code: 0..4 = E5 value, 5 = +τ, 6 = −τ
 		split := func(code []int) (base, tiny []int, has bool) {
 			base, tiny = make([]int, len(code)), make([]int, len(code))
@@ -215,13 +218,14 @@ func termTiny(c *vf.Ctx, idx *int64, runT runTFn, runX runXFn) {
 		// T3s: digits: 3 diagonal, 3 off-diagonal
 		dE := []int{0, 1, 2} // codes of 0, 1, -1
 		oE := []int{0, 5, 6, 1}
-		if th {
+		wide := th && te == tinyExpQuick
+		if wide {
 			dE = []int{0, 1, 2, 3, 4}
 			oE = []int{0, 5, 6, 1, 2}
 		}
 		negs := xformSet(3, true, nil, false)
 		if th {
-			negs = xformSet(3, true, scalesFor(th), false)
+			negs = xformSet(3, true, scalesFor(th)[:2], false)
 		}
 		nd, no := int64(len(dE)), int64(len(oE))
 		for i := int64(0); i < nd*nd*nd*no*no*no; i++ {
@@ -253,7 +257,7 @@ func termTiny(c *vf.Ctx, idx *int64, runT runTFn, runX runXFn) {
 		}
 		// T3g
 		var uppers [][]int
-		if th {
+		if wide {
 			for u := 0; u < 8; u++ {
 				uppers = append(uppers, []int{u & 1, u >> 1 & 1, u >> 2 & 1})
 			}
